@@ -80,6 +80,9 @@ ListsOf(c) ==
 
 \* counts and degrees of the statement (altered by +1 / -1) and the verifier's own parameters
 CountsOf(c) == {"fri.query_proofs[0].commit_phase_openings[0].log_arity"}
+\* optional parts of the statement: removed when present, added when absent ("toggle")
+OptionalsOf(c) == {"opened_values.trace_next", "opened_values.preprocessed_local", "opened_values.preprocessed_next", "opened_values.random"}
+    \cup (IF c.proto # "uni" THEN {"lookup_terminals[0]", "lookup_terminals[last]", "commitments.permutation", "commitments.random"} ELSE {})
 ParamsOf(c) == {"params.log_blowup", "params.log_final_poly_len", "params.commit_pow_bits", "params.query_pow_bits"}
 
 Validated(c, l, o) == Validation = "full" \/ <<c.proto, l, o>> \notin UnvalidatedInCode
@@ -123,9 +126,12 @@ CommitKinds(c) == {"trace_commitment_word", "quotient_commitment_word"}
 
 PcsSteps(c) ==
     <<Obs(OpenedKinds(c)), Smp("fri_alpha"),
-      Obs({"fri_commit_phase_word"}), Chk("pow", {"fri_commit_pow_witness"}, TRUE, TRUE), Smp("beta"),
-      Obs({"fri_final_poly_coeff"}),
-      Chk("pow", {"fri_pow_witness"}, TRUE, TRUE), Smp("index"),
+      Obs({"fri_commit_phase_word"})>>
+    \* check_pow_witness with zero bits neither absorbs nor checks the witness (native: check_witness returns early)
+    \o Opt(c.cpow, <<Chk("pow", {"fri_commit_pow_witness"}, TRUE, TRUE)>>)
+    \o <<Smp("beta"), Obs({"fri_final_poly_coeff"})>>
+    \o Opt(c.qpow, <<Chk("pow", {"fri_pow_witness"}, TRUE, TRUE)>>)
+    \o <<Smp("index"),
       \* input openings against the round commitments, at the sampled index
       Chk("input", {"fri_query_opened_value", "fri_merkle_sibling_word"} \cup CommitKinds(c) \cup (IF c.zk THEN {"fri_query_salt"} ELSE {}), TRUE, TRUE),
       \* reduced opening (opened values at zeta, fri alpha) folded with the siblings and betas; commit-phase openings
@@ -171,7 +177,7 @@ Init ==
     /\ \/ /\ fault \in {k \in Kinds : Present(cfg, k)} \cup {"none"}
           /\ mal = NoMal
        \/ /\ fault = "none"
-          /\ mal \in (ListsOf(cfg) \X MalOps) \cup (CountsOf(cfg) \X {"inc", "dec"})
+          /\ mal \in (ListsOf(cfg) \X MalOps) \cup (CountsOf(cfg) \X {"inc", "dec"}) \cup (OptionalsOf(cfg) \X {"toggle"})
     /\ home \in (IF fault \in SplitKinds THEN {"input", "commit"} ELSE {"any"})
     /\ pc = 0
     /\ observed = {}
@@ -226,12 +232,14 @@ Accepted == pc > Len(Steps(cfg)) /\ refusedAt = "none"
 (***************************************************************************)
 TypeOK == pc \in 0..(Len(Steps(cfg)) + 1) /\ refusedAt \in {"none"} \cup {Stages[i] : i \in 1..Len(Stages)}
 
+\* a proof-of-work witness for zero bits is carried by the proof but read by neither verifier
+Inert(c, k) == (k = "fri_commit_pow_witness" /\ ~c.cpow) \/ (k = "fri_pow_witness" /\ ~c.qpow)
 \* C01: a statement with a fault is never accepted; the honest one is
-FaultRefused == Accepted => (fault = "none" /\ (mal = NoMal \/ ~Validated(cfg, mal[1], mal[2])))
+FaultRefused == Accepted => ((fault = "none" \/ Inert(cfg, fault)) /\ (mal = NoMal \/ ~Validated(cfg, mal[1], mal[2])))
 HonestAccepted == (Done /\ fault = "none" /\ mal = NoMal) => Accepted
 
 \* C14: at acceptance every kind of the statement has been read by a check directly
-EveryKindRead == Accepted => \A k \in Kinds : Present(cfg, k) => (k \in direct \/ k = "degree_bits")
+EveryKindRead == Accepted => \A k \in Kinds : Present(cfg, k) => (k \in direct \/ k = "degree_bits" \/ Inert(cfg, k))
 
 \* every kind enters the transcript before the query phase, except what the queries themselves carry
 QueryOnly == {"fri_query_opened_value", "fri_query_sibling_value", "fri_merkle_sibling_word", "fri_pow_witness",
